@@ -589,6 +589,48 @@ def csv_property(case, parsed):
     return fails
 
 
+def blob_numbers(case):
+    for c in case['results']:
+        for level in case['tree']['hierarchy']:
+            if level in c:
+                e = c[level]
+                yield from [e['bootstrapping_probability'], e['avg_correlation'], e['aggregate_probability']]
+                yield from e.get('runner_up_probability', [])
+                yield from e.get('runner_up_correlation', [])
+
+
+def csv_text_input(case, names, csv_args):
+    """Model call 1555 (CsvText.blob_to_csv_text, the TEXT of the file): the strings behind the integer names, repr()
+    of the numbers (used by the model only in the categorical columns of finding F12), repository and version, then
+    the arguments of 1504.  Second result: the blob holds a -0.0 (no fraction carries its sign)."""
+    import cell_type_mapper
+    name_tbl = [[z, c15_csvtext.enc(st)] for st, z in names.d.items()]
+    nums = {}
+    for x in blob_numbers(case):
+        nums[tuple(rat(x))] = repr(float(x))
+    neg_zero = any(float(x) == 0.0 and bool(np.signbit(float(x))) for x in blob_numbers(case))
+    return (1555, [name_tbl, [[list(k), c15_csvtext.enc(v)] for k, v in nums.items()],
+                   [c15_csvtext.enc(cell_type_mapper.__repository__),
+                    c15_csvtext.enc(cell_type_mapper.__version__)]] + csv_args), neg_zero
+
+
+def csv_model_args(case, names):
+    """The arguments of model calls 1504 / 1555 for a case (registers every string of the case in names)."""
+    data = case['tree']
+    nodes_per_level(data, names)
+    for level in data['hierarchy']:
+        names(level)
+    if case['meta_name'] is not None:
+        names(case['meta_name'])
+    naming = encode_naming(data, names)
+    blob = encode_blob(case, names)
+    tbl, readable, sticky, categ, tbl_ok = column_table(case, names)
+    algo = {None: 0, True: 1, False: 2}[case['flatten_cfg']]
+    return [naming, [names(l) for l in data['hierarchy']],
+            [] if case['meta_name'] is None else [names(case['meta_name'])],
+            algo, 1 if case['single_iter'] else 0, [sticky, categ], blob]
+
+
 # ------------------------------------------------------------------ one batch of blob cases
 def blob_cases(ctx):
     rng = ctx.rng
@@ -627,27 +669,8 @@ def judge(ctx, cases, observed, verbose=False, stream='blob'):
                     [] if case['meta_name'] is None else [names(case['meta_name'])],
                     algo, 1 if case['single_iter'] else 0, [sticky, categ], blob]
         model_in.append((1504, csv_args))
-        # the TEXT of the file (CsvText.blob_to_csv_text): the strings behind the integer names, repr() of the
-        # numbers (used by the model only in the categorical columns of finding F12), repository and version
-        name_tbl = [[z, c15_csvtext.enc(st)] for st, z in names.d.items()]
-        nums = {}
-        for c in case['results']:
-            for level in data['hierarchy']:
-                if level in c:
-                    e = c[level]
-                    for x in ([e['bootstrapping_probability'], e['avg_correlation'], e['aggregate_probability']]
-                              + list(e.get('runner_up_probability', [])) + list(e.get('runner_up_correlation', []))):
-                        nums[tuple(rat(x))] = repr(float(x))
-        case['_neg_zero'] = any(float(x) == 0.0 and np.signbit(float(x)) for c in case['results']
-                                for level in data['hierarchy'] if level in c
-                                for x in ([c[level]['bootstrapping_probability'], c[level]['avg_correlation'],
-                                           c[level]['aggregate_probability']]
-                                          + list(c[level].get('runner_up_probability', []))
-                                          + list(c[level].get('runner_up_correlation', []))))
-        import cell_type_mapper
-        model_in.append((1555, [name_tbl, [[list(k), c15_csvtext.enc(v)] for k, v in nums.items()],
-                                [c15_csvtext.enc(cell_type_mapper.__repository__),
-                                 c15_csvtext.enc(cell_type_mapper.__version__)]] + csv_args))
+        txt_in, case['_neg_zero'] = csv_text_input(case, names, csv_args)
+        model_in.append(txt_in)
         names_l.append(names)
     res = ctx.model(model_in)
     # second batch: the reader on the file the implementation wrote
